@@ -184,6 +184,7 @@ def _chunk(arg):
     stories = fam_total.repo_stories() if kind in ("mut", "repo") else None
     out = {"n": 0, "skipped": 0, "agree": 0, "outcomes": {}, "disagreements": [], "hashes": [], "diag_lines": 0}
     cases, metas = [], []
+    tables_of = {}
     for idx in idxs:
         text, label = gen_text(seed, kind, idx, stories, FEATURES)
         if not modelled(text) or len(text) > 60000:
@@ -192,6 +193,7 @@ def _chunk(arg):
         real, tables = real_parse(text)
         cases.append({"kind": "ptext", "id": len(cases), "source": text, **tables})
         metas.append((text, label, real))
+        tables_of[id(real)] = tables["stmt"]
     try:
         answers = run_driver(cases, timeout=900) if cases else []
     except Exception as e:  # noqa
@@ -205,6 +207,11 @@ def _chunk(arg):
             out["diag_lines"] += 1
         out["hashes"].append(chash(text))
         d = compare(real, model)
+        # the hypothesis of the C14 theorems (`StmtLinesOk`, Proofs/C14b.lean): CPython reports the syntax error of a
+        # statement on one of the lines it was handed
+        for src_, v_ in tables_of.get(id(real), {}).items():
+            if v_.startswith("syntax:") and v_[7:] and int(v_[7:]) > src_.count("\n") + 1:
+                d = d or f"oracle hypothesis StmtLinesOk fails: ast.parse reports line {v_[7:]} of a source with {src_.count(chr(10)) + 1} line(s): {src_[:80]!r}"
         if d is None:
             out["agree"] += 1
         else:
